@@ -97,12 +97,14 @@ def fresh_digest(prop, tier, seed, idx, timeout=300):
 
 def _work(args):
     """Worker task: a list of scenario indices."""
-    prop, tier, seed, indices, keep_samples = args
+    prop, tier, seed, indices, keep_samples = args[:5]
+    want_hist = args[5] if len(args) > 5 else None
     engine = load_engine(prop)
     faulthandler.enable()
     out = []
     for idx in indices:
-        hist_before = list(_WORKER_HISTORY)
+        # the process history is recorded only for the few scenarios that may be compared with a fresh interpreter (memory!)
+        hist_before = list(_WORKER_HISTORY) if (want_hist is not None and idx in want_hist) else None
         _WORKER_HISTORY.append(idx)
         scen = engine.generate(scen_rng(seed, engine, prop, idx), prop, tier)
         scen['property'] = prop
@@ -263,6 +265,8 @@ def run_check(prop, tier):
           % (prop, tier, seed, jobs, n_total, max_s, boot.REPO, engine.NAME), flush=True)
 
     keep = set(range(0, n_total, max(1, n_total // 4)))      # a few samples for the evidence
+    k_fresh = 48 if tier == 'quick' else 400
+    want_hist = set(range(3, n_total, max(1, n_total // (4 * k_fresh)))) if getattr(engine, 'PROCESS_HISTORY', False) else None
     det_step = max(2, min(50, n_total // 8))
     det_idx = [i for i in range(n_total) if i % det_step == 1]     # >= 2 % determinism re-runs (in other worker tasks)
     results = {}
@@ -277,7 +281,7 @@ def run_check(prop, tier):
         while pos < n_total and time.time() - t_start < max_s:
             idxs = list(range(pos, min(n_total, pos + block)))
             pos += len(idxs)
-            tasks = [(prop, tier, seed, idxs[i:i + chunk], keep) for i in range(0, len(idxs), chunk)]
+            tasks = [(prop, tier, seed, idxs[i:i + chunk], keep, want_hist) for i in range(0, len(idxs), chunk)]
             dets = [i for i in idxs if i in set(det_idx)]
             # determinism re-runs go into separate tasks (hence, in general, other worker processes)
             tasks += [(prop, tier, seed, [i], set()) for i in dets]
@@ -339,7 +343,6 @@ def run_check(prop, tier):
         # results must not depend on what the process did before: the digest obtained in a worker that had already executed
         # other scenarios is compared with the digest of the same scenario run first in a fresh interpreter
         cand = [i for i in sorted(results) if results[i]['history_before'] and not results[i]['harness'] and not results[i]['violations']]
-        k_fresh = 48 if tier == 'quick' else 400
         step = max(1, len(cand) // k_fresh)
         pick = (nondet + cand[::step])[:k_fresh + len(nondet)]
         import concurrent.futures as _cf
@@ -352,11 +355,11 @@ def run_check(prop, tier):
                     harness.append('HARNESS-ERROR fresh digest of scenario %d: %s' % (i, fd))
                 elif fd != results[i]['digest']:
                     scen_ph = {'engine': engine.NAME, 'mode': 'process-history', 'property': prop, 'seed': seed, 'tier': tier,
-                               'prefix': results[i]['history_before'], 'target': i}
+                               'prefix': results[i]['history_before'] or [], 'target': i}
                     results[i]['scenario'] = scen_ph
                     viols.append((i, {'property': prop, 'oracle': 'process-history-dependence',
                                       'detail': 'scenario %d gives digest %s when it is the first thing a fresh interpreter does, but %s in a process that had '
-                                                'executed %d other scenarios before' % (i, fd, results[i]['digest'], len(results[i]['history_before']))}))
+                                                'executed %d other scenarios before' % (i, fd, results[i]['digest'], len(results[i]['history_before'] or []))}))
         nondet = [i for i in nondet if i not in pick]
         stats['fault.process_history_before_scenario'] = fresh_checked
     if nondet:
